@@ -643,8 +643,11 @@ pub fn write(f: &WFile) -> WOutput {
             let e = w.eol();
             w.out.extend_from_slice(e);
             let mut all: BTreeMap<u32, XEntry> = entries.clone();
-            if ri == 0 {
+            if ri == 0 || all.is_empty() {
+                // a table holds at least one sub-section
                 all.insert(0, XEntry::Free);
+            }
+            if ri == 0 {
                 if w.tape.chance(100) {
                     w.feat.insert("xref-free-entries-for-gaps");
                     let maxn = all.keys().max().copied().unwrap_or(0);
